@@ -34,7 +34,21 @@ pub(crate) struct RawOp<M: ?Sized> {
     // The cancelled flag indicates the op has been cancelled.
     cancelled: bool,
     result: PushEntry<Option<Waker>, io::Result<usize>>,
+    #[cfg(compio_verif)]
+    verif_guard: VerifGuard,
     pub(crate) carrier: M,
+}
+
+/// Emits `op.free` when the [`RawOp`] it is a field of is released.
+#[cfg(compio_verif)]
+#[derive(Default)]
+struct VerifGuard(usize);
+
+#[cfg(compio_verif)]
+impl Drop for VerifGuard {
+    fn drop(&mut self) {
+        compio_log::verif::point("op.free", self.0 as u64, 0);
+    }
 }
 
 impl<C: ?Sized> RawOp<C> {
@@ -213,9 +227,17 @@ impl ErasedKey {
             extra,
             cancelled: false,
             result: PushEntry::Pending(None),
+            #[cfg(compio_verif)]
+            verif_guard: VerifGuard::default(),
             carrier: Carrier::new(op, driver_ty),
         };
         let mut inner = ThinCell::new(raw_op);
+        #[cfg(compio_verif)]
+        {
+            let id = inner.as_ptr() as usize;
+            unsafe { inner.borrow_unchecked().verif_guard.0 = id };
+            compio_log::verif::point("op.alloc", id as u64, 0);
+        }
         // SAFETY:
         // - ThinCell is just created, there will be no shared owner or borrower
         // - Carrier is being pinned by ThinCell, it will have a stable address until
@@ -289,6 +311,8 @@ impl ErasedKey {
     /// Set the `cancelled` flag, returning whether it was already cancelled.
     pub(crate) fn set_cancelled(&self) -> bool {
         let mut op = self.borrow();
+        #[cfg(compio_verif)]
+        compio_log::verif::point("op.cancelled", self.as_raw() as u64, op.cancelled as u64);
         mem::replace(&mut op.cancelled, true)
     }
 
@@ -309,6 +333,15 @@ impl ErasedKey {
             let RawOp { extra, carrier, .. } = &mut *this;
             unsafe { crate::sys::Carry::set_result(carrier, &res, extra) };
         }
+        #[cfg(compio_verif)]
+        compio_log::verif::point(
+            "op.result",
+            self.as_raw() as u64,
+            match &res {
+                Ok(n) => *n as u64,
+                Err(e) => (1u64 << 63) | (e.raw_os_error().unwrap_or(0) as u32 as u64),
+            },
+        );
         if let PushEntry::Pending(Some(w)) =
             std::mem::replace(&mut this.result, PushEntry::Ready(res))
         {
